@@ -5,6 +5,7 @@
 #include <stddef.h>
 #include <stdlib.h>
 #include <stdint.h>
+#include <string.h>
 
 /* ---- exceptions.  `throw E(...)` is lowered to __ipr_throw(IPR_EXC_<E>).  The harness states beforehand
    which exception (if any) the property allows on this path; a throw of anything else fails a named
@@ -23,7 +24,12 @@ static inline int __ipr_throw(int id)
 }
 
 /* ---- allocation (assumed: never fails, fresh object of the requested size) */
+#ifdef IPR_ALLOC_IS_MALLOC      /* leak checks (C19) need cbmc's malloc bookkeeping */
 static inline void* __ipr_alloc(unsigned long n) { void* p = malloc(n); __CPROVER_assume(p != 0); return p; }
+#else                           /* a fresh object with a CONSTANT address expression: cbmc's malloc model returns a conditional
+                                   expression, which keeps every pointer derived from it symbolic and every dispatch on it a 150-way split */
+static inline void* __ipr_alloc(unsigned long n) { return __CPROVER_allocate(n, 0); }
+#endif
 static inline void __ipr_free(void* p) { free(p); }
 void* _Znwm(unsigned long n) { return __ipr_alloc(n); }            /* operator new(size_t)   */
 void _ZdlPv(void* p) { free(p); }                                   /* operator delete(void*) */
@@ -33,6 +39,10 @@ void _ZdlPv(void* p) { free(p); }                                   /* operator 
 void __ipr_fl_push(void* list, void* node);
 void* __ipr_fl_front(void* list);
 void* __ipr_fl_insert_after(void* list, void* pos, void* node);
+/* sized construction / copy construction of a standard container, as lowered by cxx2c; defined by the container model the harness uses */
+void __ipr_vec_init(void* vec, unsigned long n);
+void __ipr_dq_push(void* deque, void* node);
+void __ipr_container_copy(void* dst, void* src, const char* what);
 
 _Bool nondet_bool(void);
 int nondet_int(void);
